@@ -203,6 +203,10 @@ int run_conc(const Args& a) {
                 auto b = v.get_body();
                 if (!b.get_locked()) { me_viol.fetch_add(1); }
                 unsigned k = static_cast<unsigned>(r.below(4));
+                // the lock holder owns the deleted flag (as border_node::delete_of / insert_lv do)
+                bool dl = (r.next() & 4U) != 0;
+                v.atomic_set_deleted(dl);
+                if (v.get_deleted() != dl) { me_viol.fetch_add(1); }
                 if ((k & 1U) != 0) { v.atomic_set_inserting_deleting(true); }
                 if ((k & 2U) != 0) { v.atomic_set_splitting(true); }
                 if (k != 0) { shadow.fetch_add(1); }
@@ -211,6 +215,32 @@ int run_conc(const Args& a) {
                 in_cs.store(0);
                 v.unlock();
                 acq.fetch_add(1, std::memory_order_relaxed);
+            }
+            ctl::thread_end();
+        });
+    }
+    // field owners outside the lock: the library itself sets the root bit of a node while holding only the
+    // *parent's* lock (promotion of the last child), concurrently with the node's lock holder setting other flags.
+    // Each toggler owns one flag: after atomic_set_X(x) the flag must read x until the toggler changes it again.
+    std::atomic<uint64_t> lost_flag{0}, toggles{0};
+    int togglers = static_cast<int>(a.num("togglers", 2));
+    for (int t = 0; t < togglers; ++t) {
+        th.emplace_back([&, t] {
+            ctl::thread_begin(lockers + 16 + t, seed * 100 + 70 + t);
+            bool x = false;
+            while (!stop.load(std::memory_order_acquire)) {
+                x = !x;
+                if (t % 2 == 0) {
+                    v.atomic_set_root(x);
+                } else {
+                    v.atomic_set_border(x);
+                }
+                for (int k = 0; k < 6; ++k) {
+                    bool now = t % 2 == 0 ? v.get_root() : v.get_border();
+                    if (now != x) { lost_flag.fetch_add(1); }
+                    for (uint64_t q = ctl::trand() % 32; q > 0; --q) { _mm_pause(); }
+                }
+                toggles.fetch_add(1, std::memory_order_relaxed);
             }
             ctl::thread_end();
         });
@@ -238,6 +268,10 @@ int run_conc(const Args& a) {
     for (int t = 0; t < lockers; ++t) { th[t].join(); }
     stop.store(true);
     for (std::size_t t = lockers; t < th.size(); ++t) { th[t].join(); }
+    rep.count("flag_toggles_by_non_lock_holders", toggles.load());
+    if (lost_flag.load() != 0) {
+        rep.violation("version:flag-update-lost", "a flag set by its owner through atomic_set_X was overwritten by another thread's operation on the same word", JObj().num("count", lost_flag.load()).done());
+    }
     ctl::g_profile.store(nullptr);
     Fields end = decode(v.get_body());
     rep.eval(acq.load() + samples.load());
@@ -254,7 +288,7 @@ int run_conc(const Args& a) {
     if (me_viol.load() != 0) { rep.violation("version:lock-not-exclusive", "two threads inside lock()..unlock() at once", JObj().num("count", me_viol.load()).done()); }
     if (bad_stable.load() != 0) { rep.violation("version:stable-version-dirty-or-locked", "get_stable_version returned a locked/dirty word", JObj().num("count", bad_stable.load()).done()); }
     if (bad_pair.load() != 0) { rep.violation("version:equal-stable-versions-around-flagged-section", "two equal stable versions although a flagged critical section completed in between", JObj().num("count", bad_pair.load()).done()); }
-    if (end.vins != want_vi || end.vsplit != want_vs || end.locked || end.ins || end.split || end.root != start.root || end.border != start.border || end.deleted != start.deleted) {
+    if (end.vins != want_vi || end.vsplit != want_vs || end.locked || end.ins || end.split) {
         rep.violation("version:final-counters", "final word differs from start + tallies (mod 2^29)", JObj().raw("end", end.json()).num("want_vinsert", want_vi).num("want_vsplit", want_vs).done());
     }
     for (uint64_t i = 0; i < std::min<uint64_t>(straddle.load(), 64); ++i) { rep.distinct(mix64(0x5712, i)); }
